@@ -124,8 +124,24 @@ partial def tyOf (j : Json) : Ty :=
 def optsOf (j : Json) : Option Opts :=
   if isNull j then none else some { strict := bool! (fld j "no_explicit_cast") }
 
-def buildEnv (j : Json) : Env × B :=
-  (arr! j).foldl (fun (acc : Env × B) dj =>
+def boundOf (j : Json) : Option (Nat × Bool) :=
+  if isNull j then none else
+  match obj? j "lax" with
+  | some n => some (nat! n, true)
+  | none => some (nat! j, false)
+
+/-- the field type, wrapped in the field's length constraints when it has any -/
+def fieldTy (fj : Json) : Ty :=
+  let t := tyOf (fld fj "ty")
+  match obj? fj "cons" with
+  | some c => if isNull c then t else
+      .con t (boundOf (fld c "length")) (boundOf (fld c "max_length"))
+        (if isNull (fld c "min_length") then none else some (nat! (fld c "min_length")))
+  | none => t
+
+/-- one declaration.  A subclass (`"base": j`) takes the base's fields over as they are — the same ParserField
+objects, hence the same default objects (cls.py:225-262) — and adds its own. -/
+def buildDecl (env : Env) (dj : Json) (b0 : B) : Decl × List Val × B :=
     let (fields, b) := (arr! (fld dj "fields")).foldl (fun (fa : List Field × B) fj =>
       let dj' := fld fj "default"
       let (dflt, b') : Dflt × B :=
@@ -136,8 +152,8 @@ def buildEnv (j : Json) : Env × B :=
           | none => (.none, { fa.2 with bad := some "fresh factory with sharing" })
         | "shared" => let (v, b') := buildVal [] (fld dj' "val") fa.2; (.shared v, b')
         | _ => let (v, b') := buildVal [] (fld dj' "val") fa.2; (.val v, b')
-      (fa.1 ++ [{ name := str! (fld fj "name"), ty := tyOf (fld fj "ty"), dflt := dflt,
-                  noOutput := bool! (fld fj "no_output") }], b')) ([], acc.2)
+      (fa.1 ++ [{ name := str! (fld fj "name"), ty := fieldTy fj, dflt := dflt,
+                  noOutput := bool! (fld fj "no_output") }], b')) ([], b0)
     let kind := match str! (fld dj "kind") with
       | "schema" => DKind.schema | "dataclass" => DKind.dataclass | _ => DKind.func
     let ws := match obj? dj "wrappers" with
@@ -148,8 +164,20 @@ def buildEnv (j : Json) : Env × B :=
     let ret := match obj? dj "ret" with
       | some r => if isNull r then none else some (str! (fld r "field"), tyOf (fld r "ty"))
       | none => none
-    (acc.1 ++ [{ kind := kind, dfs := bool! (fld dj "dfs"), fields := fields, wrappers := ws,
-                 fkind := fk, eager := bool! (fld dj "eager"), ret := ret }], b)) ([], { next := 0 })
+    let inherited : List Field := match (obj? dj "base").bind optNat with
+      -- a field set up by a case-insensitive base keeps its lower-cased aliases; one set up case-sensitively does not get them
+      | some j => ((env[j]?.map (fun bd => bd.fields.map (fun f => { f with own := bd.ci && f.own }))).getD [])
+      | none => []
+    let own := [Val.int inherited.length]      -- (re-used slot) the number of fields taken over from the base
+    ({ kind := kind, dfs := bool! (fld dj "dfs"), ci := bool! (fld dj "ci"), fields := inherited ++ fields,
+       wrappers := ws, fkind := fk, eager := bool! (fld dj "eager"), ret := ret }, own, b)
+
+/-- the declarations made before the history starts (those not marked `late`) -/
+def buildEnv (j : Json) : Env × List Val × B :=
+  (arr! j).foldl (fun (acc : Env × List Val × B) dj =>
+    if bool! (fld dj "late") then acc else
+    let (d, own, b) := buildDecl acc.1 dj acc.2.2
+    (acc.1 ++ [d], acc.2.1 ++ own, b)) ([], [], { next := 0 })
 
 partial def valJ : Val → Json
   | .none => Json.null
@@ -168,15 +196,28 @@ def atomOf (j : Json) : Val := match j with
 
 structure Run where
   w : World
+  inh : List Nat := []      -- per declaration: how many of its fields are taken over from a base class
   outs : List Outcome := []
   unm : Option String := none
 
-def stepJ (legacy : Bool) (r : Run) (j : Json) : Run :=
+def stepJ (legacy : Bool) (envJ : Json) (r : Run) (j : Json) : Run :=
   let stp := if legacy then World.stepWith schemaCopyLegacy effectiveOpts else World.step
   let fin (p : World × Outcome) : Run :=
     { r with w := p.1, outs := r.outs ++ [p.2],
              unm := match p.2 with | .unmodelled why => r.unm.orElse (fun _ => some why) | _ => r.unm }
   match str! (fld j "op") with
+  | "declare" =>
+      let k := nat! (fld j "decl")
+      if k != r.w.env.length then { r with unm := some "declaration out of order", outs := r.outs ++ [.unmodelled "declare"] } else
+      match (arr! envJ)[k]? with
+      | none => { r with unm := some "no such declaration", outs := r.outs ++ [.unmodelled "declare"] }
+      | some dj =>
+        let (d, own, b) := buildDecl r.w.env dj { next := r.w.next }
+        match b.bad with
+        | some why => { r with unm := some why, outs := r.outs ++ [.unmodelled why] }
+        | none =>
+          let n := match own with | [.int i] => i.toNat | _ => 0
+          { fin (stp r.w (.declare d (b.next - r.w.next))) with inh := r.inh ++ [n] }
   | "call" =>
       let (inp, b) := buildVal r.w.roots (fld j "input") { next := r.w.next }
       match (match inp with
@@ -184,7 +225,17 @@ def stepJ (legacy : Bool) (r : Run) (j : Json) : Run :=
              | .node _ .tuple _ [.node _ .dict _ _, .node _ .dict _ _] => b.bad      -- `Cls(d, **kw)`
              | _ => some "input is not a plain dict") with
       | some why => { r with unm := some why, outs := r.outs ++ [.unmodelled why] }
-      | none => fin (stp r.w (.call (nat! (fld j "target")) (nat! (fld j "wrapper")) (b.next - r.w.next) inp))
+      | none =>
+        let rj := fld j "ropt"
+        let ro : ROpts := if isNull rj then {} else
+          let force := obj? rj "force_default"
+          { ignoreRequired := bool! (fld rj "ignore_required") || force.isSome,
+            noDefault := bool! (fld rj "no_default"),
+            force := force.map atomOf,
+            dfs := match obj? rj "data_first_search" with
+              | some d => if isNull d then none else some (bool! d)
+              | none => none }
+        fin (stp r.w (.call (nat! (fld j "target")) (nat! (fld j "wrapper")) (b.next - r.w.next) inp ro))
   | "mutate" =>
       match r.w.root (nat! (fld j "root")) with
       | none => { r with outs := r.outs ++ [.skip] }
@@ -222,13 +273,14 @@ def stepJ (legacy : Bool) (r : Run) (j : Json) : Run :=
   | _ => { r with unm := some "unknown op" }
 
 def handle (j : Json) : Json :=
-  let (env, b) := buildEnv (fld j "env")
+  let (env, inh0, b) := buildEnv (fld j "env")
   match b.bad with
   | some why => Json.mkObj [("unmodelled", Json.str why)]
   | none =>
     let w0 : World := { env := env, next := b.next }
-    let r := (arr! (fld j "ops")).foldl (stepJ (bool! (fld j "legacy_copy"))) { w := w0 }
-    let dfl := r.w.env.dfltVals
+    let r := (arr! (fld j "ops")).foldl (stepJ (bool! (fld j "legacy_copy")) (fld j "env")) { w := w0, inh := inh0.map (fun | .int i => i.toNat | _ => 0) }
+    -- the declared default objects, once each (a subclass shares the default objects of the fields it takes over)
+    let dfl := (r.w.env.zip r.inh).flatMap (fun p => (p.1.fields.drop p.2).flatMap (fun f => f.dflt.vals))
     Json.mkObj [("outs", Json.arr (r.outs.map outJ).toArray),
                 ("defaults", Json.arr (dfl.map valJ).toArray),
                 ("roots", Json.arr (r.w.roots.map (fun | some v => valJ v | none => Json.null)).toArray),
